@@ -67,7 +67,14 @@ def weight_text(w, d):
 # ---- engines -------------------------------------------------------------------------------------------------------------------
 
 
-def gen_weight(rnd, d):
+NEAR_ONE = [0.9995, 1.0005, 0.99999, 0.999, 1.001, 0.3337, 0.0625, 0.9996]
+
+
+def gen_weight(rnd, d, free=False):
+    """free: the weight is set on the rule object (not only written in the text), so it need not be representable at d
+    decimals nor keep away from 1 - used by the checks that do not round-trip through text"""
+    if free and rnd.random() < 0.25:
+        return rnd.choice(NEAR_ONE)
     w = G.snap(rnd.choice([1.0, 1.0, 1.0, 0.5, 0.25, 0.75, 0.0, rnd.uniform(0.01, 0.95), rnd.uniform(0.01, 0.95)]), d)
     return w if (w >= 0 and (w == 1.0 or abs(w - 1.0) > 0.0015)) else 1.0
 
@@ -91,6 +98,8 @@ def gen_engine(
     locks=True,
     descriptions=False,
     infinite=False,
+    free_weights=False,
+    share_defuzzifier=False,
 ):
     nin, nout, nrb = rnd.randint(1, max_inputs), rnd.randint(1, 2), rnd.randint(1, 2)
     off = (lambda p: rnd.random() < p) if flags else (lambda p: False)
@@ -145,10 +154,13 @@ def gen_engine(
                 avars = avars + list(spec["outputs"])
             tree = gen_tree(rnd, avars, rnd.randint(0, max_depth))
             concl = [gen_prop(rnd, o, max_hedges=2, allow_any=False) for o in rnd.sample(spec["outputs"], rnd.randint(1, nout))]
-            w = gen_weight(rnd, d)
+            w = gen_weight(rnd, d, free=free_weights)
             text = "if " + tree_text(rnd, tree, redundant=rnd.choice([0, 0, 0.3]), tight=rnd.choice([0, 0.5])) + " then " + " and ".join(prop_text(c) for c in concl) + weight_text(w, d)
             rb["rules"].append(dict(text=text, tree=tree, concl=concl, weight=w, enabled=not off(0.1)))
         spec["blocks"].append(rb)
+    if share_defuzzifier and rnd.random() < 0.5:
+        # one Automatic weighted defuzzifier object for all the weighted output variables (what Engine.configure does)
+        spec["shared_defuzzifier"] = rnd.choice(["WeightedAverage", "WeightedSum"])
     if descriptions:
         for part in spec["outputs"] + spec["blocks"]:
             part["description"] = rnd.choice(["", "", "some text: with a colon", "x = 1, y = 2 (approx.)"])
@@ -180,13 +192,16 @@ def build_defuzzifier(fl, dz):
 
 def build(fl, spec):
     e = fl.Engine(spec["name"], spec["description"])
+    shared = getattr(fl, spec["shared_defuzzifier"])() if spec.get("shared_defuzzifier") else None
     for v in spec["inputs"]:
         e.input_variables.append(fl.InputVariable(v["name"], v["description"], v["enabled"], v["minimum"], v["maximum"], v["lock_range"], [G.build_term(fl, t, e) for t in v["terms"]]))
     for v in spec["outputs"]:
         e.output_variables.append(
             fl.OutputVariable(
                 v["name"], v["description"], v["enabled"], v["minimum"], v["maximum"], v["lock_range"], v["lock_previous"], v["default_value"],
-                getattr(fl, v["aggregation"])() if v["aggregation"] else None, build_defuzzifier(fl, v["defuzzifier"]), [G.build_term(fl, t, e) for t in v["terms"]],
+                getattr(fl, v["aggregation"])() if v["aggregation"] else None,
+                shared if (shared is not None and v["defuzzifier"] and "type" in v["defuzzifier"]) else build_defuzzifier(fl, v["defuzzifier"]),
+                [G.build_term(fl, t, e) for t in v["terms"]],
             )
         )  # fmt: skip
     for rb in spec["blocks"]:
@@ -261,6 +276,19 @@ def exotic(rnd, spec, empty_engine_name=True):
             o["defuzzifier"] = None
         if rnd.random() < 0.1:
             o["aggregation"] = None
+    if rnd.random() < 0.25:  # a height of exactly zero (degenerate but representable)
+        v = rnd.choice(spec["inputs"] + spec["outputs"])
+        cands = [t for t in v["terms"] if t["cls"] not in ("Constant", "Linear", "Function")]
+        if cands:
+            rnd.choice(cands)["height"] = 0.0
+    if rnd.random() < 0.3:  # identifiers with non-ASCII letters (valid Python / FuzzyLite identifiers)
+        rename = {}
+        v = rnd.choice(spec["inputs"] + spec["outputs"])
+        rename[v["name"]] = rnd.choice(["température", "größe", "λ"]) + v["name"][-1]
+        if v["terms"]:
+            t = rnd.choice(v["terms"])
+            rename[t["name"]] = rnd.choice(["élevé", "niedrig_ß", "μ"]) + t["name"]
+        apply_rename(spec, rename)
     if rnd.random() < 0.2:
         spec["inputs"].append(dict(name="spare", description="", enabled=rnd.random() < 0.7, minimum=0.0, maximum=1.0, lock_range=False, terms=[]))
     if rnd.random() < 0.2:
@@ -268,3 +296,29 @@ def exotic(rnd, spec, empty_engine_name=True):
     if rnd.random() < 0.2:
         spec["blocks"].append(dict(name="emptyblock", description="", enabled=True, conjunction="Minimum", disjunction="Maximum", implication="Minimum", activation=dict(cls="General", args=[]), rules=[]))
     return spec
+
+
+def apply_rename(spec, rename):
+    """rename variables / terms consistently in the variables, the rule texts and the rule trees"""
+    import re
+
+    def word(text):
+        return re.sub(r"[^\s()]+", lambda m: rename.get(m.group(0), m.group(0)), text)
+
+    def tree(t):
+        if t[0] == "prop":
+            p = t[1]
+            return ("prop", dict(p, var=rename.get(p["var"], p["var"]), term=rename.get(p["term"], p["term"]) if p["term"] else None))
+        return (t[0], tree(t[1]), tree(t[2]))
+
+    for v in spec["inputs"] + spec["outputs"]:
+        v["name"] = rename.get(v["name"], v["name"])
+        for t in v["terms"]:
+            t["name"] = rename.get(t["name"], t["name"])
+            if t.get("formula"):
+                t["formula"] = word(t["formula"])
+    for rb in spec["blocks"]:
+        for r in rb["rules"]:
+            r["text"] = word(r["text"])
+            r["tree"] = tree(r["tree"])
+            r["concl"] = [dict(c, var=rename.get(c["var"], c["var"]), term=rename.get(c["term"], c["term"]) if c["term"] else None) for c in r["concl"]]
